@@ -538,6 +538,9 @@ def _do_run(a, pid, seed, mod, subs, known, known_active, scratch, t0):
                 records.append(rec)
             shard_walls.append(r.get("wall_s", 0.0))
 
+    for rec in records:
+        if rec.get("status") == "harness":
+            harness.append("%s/%s record: %s" % (pid, rec.get("sub"), rec.get("harness") or "harness status without text"))
     # ---- bucket failures
     buckets = {}
     for rec in records:
